@@ -43,12 +43,18 @@ def operator_case(rep, rng, mesh, mi, with_model):
     A2 = A + (dchi / np.sum(d * d, axis=1))[:, None] * d          # A2.dir = A.dir + chi_j - chi_i
     b = list(map(int, mesh.boundary_indices))
     fixed = np.array(sorted(rng.sample(b, max(1, len(b) // 4))), dtype=np.int64) if mi % 2 else np.array([], dtype=np.int64)
-    ops1 = MeshOperators(mesh, SparseSolver.SUPERLU, fixed_sites=fixed, fix_psi=True)
+    # fix_psi=False is what the solver uses for terminal_psi=None (terminal sites unpinned): the psi operators then take the
+    # other construction / refresh branch
+    fp = (mi % 3 != 2)
+    ops1 = MeshOperators(mesh, SparseSolver.SUPERLU, fixed_sites=fixed, fix_psi=fp)
+    meshes.build_like_solver(ops1)
     ops1.set_link_exponents(A)
-    ops2 = MeshOperators(mesh, SparseSolver.SUPERLU, fixed_sites=fixed, fix_psi=True)
+    ops2 = MeshOperators(mesh, SparseSolver.SUPERLU, fixed_sites=fixed, fix_psi=fp)
+    meshes.build_like_solver(ops2)
     ops2.set_link_exponents(A2)
     # the gauge transformation applied IN PLACE to the caller's own array, handed over again as the same object
-    ops3 = MeshOperators(mesh, SparseSolver.SUPERLU, fixed_sites=fixed, fix_psi=True)
+    ops3 = MeshOperators(mesh, SparseSolver.SUPERLU, fixed_sites=fixed, fix_psi=fp)
+    meshes.build_like_solver(ops3)
     buf = A.copy()
     ops3.set_link_exponents(buf)
     buf += A2 - A
@@ -62,7 +68,9 @@ def operator_case(rep, rng, mesh, mi, with_model):
         psi = np.ones(n, dtype=complex) * np.exp(0.7j)     # uniform: the supercurrent is then the response to A alone
     g = np.exp(1j * chi)
     psi2 = g * psi
-    case = {"mesh": mi, "sites": n, "edges": E, "pinned": int(len(fixed)), "potential_scale": Ascale}
+    case = {"mesh": mi, "sites": n, "edges": E, "pinned": int(len(fixed)), "potential_scale": Ascale, "fix_psi": fp}
+    if not fp:
+        fixed = np.array([], dtype=np.int64)          # nothing is pinned in the psi operators then
     L1, L2 = ops1.psi_laplacian @ psi, ops2.psi_laplacian @ psi2
     pm = float(np.max(np.abs(psi)))
     # rounding floor: the link phases of the transformed potential (|theta| up to max|A.d| + max|dchi|) carry a relative
@@ -163,6 +171,7 @@ def run_pair(rep, rng, ci, cfg):
             psi0[ts] = 0.0
         seed1 = make_seed(dev, td, psi0)
         scr = dict(include_screening=True, screening_tolerance=cfg.get("scr_tol", 1e-3)) if cfg.get("screening") else {}
+        scr = {**scr, "terminal_psi": cfg.get("terminal_psi", 0.0)}
         opts = runs.make_options(None, solve_time=cfg["solve_time"], dt_init=1e-3, dt_max=2e-2, adaptive=cfg["adaptive"],
                                  save_every=10, **scr)
         # dimensionless shift: link exponents are A_scale * A . (dimensionless direction)
@@ -190,7 +199,7 @@ def run_pair(rep, rng, ci, cfg):
                 failed[tag] = str(e)[:120]                    # an allowed outcome, provided both gauges agree on it
                 continue
             runs.report_threading(rep, solver_, {"pair": ci, "run": tag})
-            iters[tag] = None if not scr else np.array(sol.dynamics.screening_iterations)
+            iters[tag] = None if not cfg.get("screening") else np.array(sol.dynamics.screening_iterations)
             with h5py.File(sol.path, "r") as f:
                 fr = []
                 for k in sorted(f["data"], key=int):
@@ -282,7 +291,12 @@ def run(rep: common.Report, tier: str, seed: int, replay=None) -> int:
         dict(B=0.0, ramp=(0.0, 3.0, 15.0), shift=(150.0, 120.0), shift_dimensionless=True, terminals=2, holes=0,
              bias=1.0, adaptive=False, solve_time=0.4),
     ]
+    # feature pairs: unpinned contacts (terminal_psi=None) together with a time-dependent field / with screening
+    pairs.append(dict(B=0.0, ramp=(0.0, 2.0, 10.0), shift=(0.9, -0.6), terminals=2, holes=0, bias=1.0, adaptive=False,
+                      solve_time=0.25, terminal_psi=None))
     if tier == "thorough":
+        pairs.append(dict(B=0.5, shift=(1.5, 1.0), shift_dimensionless=True, terminals=2, holes=0, bias=1.0, adaptive=True,
+                          solve_time=0.06, screening=True, lam=0.3, terminal_psi=None))
         pairs = pairs * 4
     for ci, cfg in enumerate(pairs):
         run_pair(rep, rng, ci, cfg)
